@@ -1,3 +1,4 @@
+import Props.C06Pkce
 import Model.Provider
 /-
   C06 — authorization and device codes over every history: a token is issued for a code only
